@@ -322,7 +322,7 @@ fn c01_false_twin() {
 
 // ------------------------------------------------------------------------------------------ C19
 
-// @h props=C19,C01:t tier=quick family=M mem=18 timeout=2400 stubs=ModelRS,utils::stable_partition_of_4->fixed_array_reference(c17) role=qwt.paths.u8
+// @h props=C19:t,C01:t tier=thorough family=M mem=18 timeout=2400 stubs=ModelRS,utils::stable_partition_of_4->fixed_array_reference(c17) role=qwt.paths.u8
 // @bound QWaveletTree<u8, ModelRS>: length 3 (s[last] = 255): new / From<Vec> / collect give equal values, Clone is equal, a sequence differing in one symbolic position gives an unequal value
 // @funcs QWaveletTree::new, QWaveletTree::from<Vec>, QWaveletTree::from_iter, QWaveletTree::clone, QWaveletTree::eq
 #[kani::proof]
